@@ -171,6 +171,7 @@ func (ex *Exec) step(st *State, in ssa.Instruction) {
 			st.sc.assert(eq(app(SInt, cn, id), ex.val(st, b)))
 		}
 		st.vals[t] = id
+		ex.closureRequiresAtMake(st, t)
 		ex.closureDefAxiom(st, t, id)
 	case *ssa.Range:
 		mt, ok := t.X.Type().Underlying().(*types.Map)
